@@ -16,6 +16,14 @@
     accepted datagrams from (same IP other port, IPv4-mapped too) and tunnel data TO such addresses, in every socket
     state; ExitPolicy.tla carries that history (asked, sentTo, heard) and gives it no influence on the verdict
     (deviation FlowCache = an "established flow" exemption in either direction: negative controls).
+    Reconfiguration: event "flags" writes settings.peer_flags of the running exit node (ExitPolicy.tla SetFlags);
+    scenario family "reconf" and the random traces change the flags while packets wait for a DNS answer / for the
+    transports, and between datagrams from outside: what leaves is judged by the flags configured when it leaves
+    (deviation StaleVerdict).  Previous hop: event "signed" delivers validly signed overlay messages made by the
+    previous hop node (introduction request, puncture, destroy of an unknown circuit) to the exit node from the
+    previous hop's address, its IP with another port, or a foreign IP (SignedMessage, variable `seen`), before and
+    after data from each source; the opener rule is judged against the node the circuit was really built through
+    (deviation HopFollowsPeer).
 """
 from __future__ import annotations
 
@@ -333,6 +341,12 @@ class Net:
         self.xpeer = next(p for p in self.a.overlay.candidates if p.address == self.x.endpoint.wan_address)
         # network manipulation at the exit: datagrams can be made to arrive from another source address
         self.rewrite = None
+        self.speed_flag = PEER_FLAG_SPEED_TEST
+        # whatever the exit node answers to an address nobody lives at disappears
+        from ipv8.test.mocking.endpoint import internet
+        for m in (self.a, self.r):
+            for src in ("port", "other"):
+                internet.setdefault(self.source_address(m.endpoint.wan_address, src), Sink())
         ep = self.x.endpoint
         orig = ep.notify_listeners
 
@@ -358,6 +372,23 @@ class Net:
             self.received_by_origin += 1
             return real_raw(circuit, origin, data)
         ov.on_raw_data = on_raw_data
+
+    @staticmethod
+    def source_address(prev, src):
+        """The address a datagram of source class src comes from, prev being the previous hop's address."""
+        from ipv8.messaging.interfaces.udp.endpoint import UDPv4Address
+        if src == "prev":
+            return prev
+        if src == "port":
+            return UDPv4Address(prev[0], (prev[1] + 1) % 65536 or 1)
+        return UDPv4Address("203.0.113.77", prev[1])
+
+    def set_flags(self, fs):
+        """Reconfigure the running exit node (TunnelSettings.peer_flags has a setter for this)."""
+        self.do(setattr, self.x.overlay.settings, "peer_flags", flag_ints(fs) | {self.speed_flag})
+
+    def prev_node(self, hops):
+        return self.a if hops == 1 else self.r
 
     def do(self, fn, *args):
         """Run fn inside the loop and let everything it causes happen (virtual time does not move)."""
@@ -398,6 +429,16 @@ class Net:
         internet.clear()
 
 
+class Sink:
+    """An address of the mock internet nobody listens at."""
+
+    def notify_listeners(self, *_a, **_k):
+        pass
+
+
+SIGNED_KINDS = ["introreq", "puncture", "destroy"]
+
+
 def dk_of_addr(addr, fam):
     if tuple(addr[:2]) == NULL:
         return "null"
@@ -411,9 +452,17 @@ class TraceRun:
         self.net = net
         net.outside.reset()
         net.backlog.clear()
+        net.set_flags(net.flagset)
         self.circuit, self.xcid, self.sock = net.open_circuit(hops)
-        self.prev = tuple(self.sock.hop.address)
+        # the circuit's own previous hop: the node it was really built through (not what the socket believes)
+        self.pnode = net.prev_node(hops)
+        self.prev = self.pnode.endpoint.wan_address
         self.hops = hops
+        self.epoch = 0            # number of reconfigurations so far
+        self.pend_epochs = []     # epoch in which each pending resolution was started
+        self.q_dirty = False      # the flags changed while packets were waiting for the transports
+        self.seen = ""            # where the last signed message of the previous hop's key was delivered from
+        self.flags_now = tuple(net.flagset)
         self.events = []
         self.packets = []
         self.closed = False
@@ -455,8 +504,10 @@ class TraceRun:
                 fam = "v6mapped"
             ev["tun"].append({"p": view_of(d), "fam": fam, "dest_null": tuple(dest) == NULL, "a": addr_rec(source)})
             self.h_heard.append((str(source[0]), int(source[1])))
+        if ev["st"] == "closed":
+            self.pend_epochs = []
         for k, dflt in (("src", "prev"), ("dk", "v4"), ("p", EMPTY_VIEW), ("i", 0), ("fam", "v4"), ("a", NO_ADDR),
-                        ("rip", ""), ("sit", "")):
+                        ("rip", ""), ("sit", ""), ("fl", []), ("kind", ""), ("seen", ""), ("wait", "")):
             ev.setdefault(k, dflt)
         self.events.append(ev)
         return ev
@@ -464,8 +515,8 @@ class TraceRun:
     # -- events
     def enabled_kinds(self):
         if self.closed:
-            return ["data"]
-        kinds = ["data", "close"]
+            return ["data", "flags", "signed"]
+        kinds = ["data", "close", "flags", "signed"]
         out = self.net.outside
         if [g for g in out.gates if not g[1].done()]:
             kinds.append("tr")
@@ -478,21 +529,55 @@ class TraceRun:
     def data(self, src, dk, dest, pkt):
         net = self.net
         n_sent, n_back = len(net.outside.sent), len(net.backlog)
-        if src == "prev":
-            net.rewrite = None
-        elif src == "port":
-            net.rewrite = (self.prev[0], (self.prev[1] + 1) % 65536 or 1)
-        else:
-            net.rewrite = ("203.0.113.77", self.prev[1])
+        net.rewrite = None if src == "prev" else net.source_address(self.prev, src)
         c = self.circuit
+        np0 = len(net.outside.pending_dns())
         net.do(net.a.overlay.send_data, c.hop.address, c.circuit_id, dest, NULL, pkt)
         net.rewrite = None
         self.packets.append(pkt)
+        if len(net.outside.pending_dns()) > np0:
+            self.pend_epochs.append(self.epoch)
         sit = self.situation(dest)
         if dk in ("v4", "v6"):
             self.h_asked.append((str(dest[0]), int(dest[1])))
         return self.observe({"k": "data", "src": src, "dk": dk, "p": view_of(pkt), "dest": list(dest),
-                             "a": addr_rec(dest), "sit": sit}, n_sent, n_back)
+                             "a": addr_rec(dest), "sit": sit, "seen": self.seen}, n_sent, n_back)
+
+    def set_flags(self, fs):
+        """settings.peer_flags of the exit node is rewritten while the socket lives."""
+        out = self.net.outside
+        n_sent, n_back = len(out.sent), len(self.net.backlog)
+        self.net.set_flags(fs)
+        self.epoch += 1
+        self.flags_now = tuple(fs)
+        if not self.closed and len(self.sock.queue):
+            self.q_dirty = True
+        return self.observe({"k": "flags", "fl": list(fs)}, n_sent, n_back)
+
+    def signed(self, src, kind):
+        """A validly signed overlay message made by the previous hop node reaches the exit node from source src
+        (src != "prev": somebody replays it from elsewhere - messages do not bind their sender address)."""
+        from ipv8.messaging.anonymization.payload import DestroyPayload
+        net, ov = self.net, self.pnode.overlay
+        out = net.outside
+        n_sent, n_back = len(out.sent), len(net.backlog)
+        xaddr = net.x.endpoint.wan_address
+        box = []
+        if kind == "introreq":
+            net.do(lambda: box.append(ov.create_introduction_request(xaddr)))
+        elif kind == "puncture":
+            net.do(lambda: box.append(ov.create_puncture(self.pnode.endpoint.lan_address, self.prev, 7)))
+        else:
+            known = set(net.x.overlay.exit_sockets) | set(net.x.overlay.relay_from_to) | set(net.x.overlay.circuits)
+            cid = next(c for c in range(0x7fff0000, 0x7fff0000 + len(known) + 1) if c not in known)
+            net.do(lambda: box.append(ov.ezr_pack(DestroyPayload.msg_id, DestroyPayload(cid, 0))))
+        if not box:
+            raise MachineryError("driver could not make a signed %s message" % kind)
+        net.rewrite = None if src == "prev" else net.source_address(self.prev, src)
+        net.do(self.pnode.endpoint.send, xaddr, box[0])
+        net.rewrite = None
+        self.seen = src
+        return self.observe({"k": "signed", "src": src, "kind": kind}, n_sent, n_back)
 
     def situation(self, a):
         """What the socket did with outside address a so far (label only)."""
@@ -512,13 +597,22 @@ class TraceRun:
         out = self.net.outside
         n_sent, n_back = len(out.sent), len(self.net.backlog)
         fam, fut = next(g for g in out.gates if not g[1].done())
+        waiting = len(self.sock.queue)
         self.net.do(fut.set_result, None)
-        return self.observe({"k": "tr", "fam": fam}, n_sent, n_back)
+        ev = {"k": "tr", "fam": fam}
+        if self.state() == "ready":
+            # the queue was flushed: had the configuration changed while packets were waiting in it?
+            ev["wait"] = ("reconf" if self.q_dirty else "same") if waiting else ""
+            self.q_dirty = False
+        return self.observe(ev, n_sent, n_back)
 
     def resolve(self, i):
         out = self.net.outside
         n_sent, n_back = len(out.sent), len(self.net.backlog)
         host, fut = out.pending_dns()[i - 1]
+        wait = ""
+        if len(self.pend_epochs) == len(out.pending_dns()):
+            wait = "reconf" if self.pend_epochs.pop(i - 1) != self.epoch else "same"
         rip = ""
         if host in out.DNS:
             answer = list(out.DNS[host])
@@ -526,7 +620,7 @@ class TraceRun:
             self.net.do(fut.set_result, answer)
         else:
             self.net.do(fut.set_exception, socket.gaierror(-2, "Name or service not known"))
-        return self.observe({"k": "res", "i": i, "host": host, "rip": rip}, n_sent, n_back)
+        return self.observe({"k": "res", "i": i, "host": host, "rip": rip, "wait": wait}, n_sent, n_back)
 
     def outside_datagram(self, fam, pkt, source=None):
         """A datagram from outside address `source` ((ip, port); default: an address never dealt with) arrives on the
@@ -569,6 +663,13 @@ class TraceRun:
 
     def finish(self):
         self.net.cleanup(self.circuit, self.xcid)
+        self.net.set_flags(self.net.flagset)
+        if self.seen not in ("", "prev"):
+            # the previous hop node speaks for itself again (not part of the recorded socket lifetime)
+            box = []
+            self.net.do(lambda: box.append(self.pnode.overlay.create_puncture(self.pnode.endpoint.lan_address,
+                                                                              self.prev, 7)))
+            self.net.do(self.pnode.endpoint.send, self.net.x.endpoint.wan_address, box[0])
         if self.net.errors:
             raise MachineryError("harness call failed inside the loop: %s" % self.net.errors[:3])
         return {"flags": list(self.net.flagset), "prefix": list(self.net.prefix), "qcap": self.qcap,
@@ -757,12 +858,102 @@ def flows_trace(net, gen, hops, burst=0):
     return t.finish(), marks
 
 
+ALL_FLAGS = ("BT", "IPV8", "RELAY")
+RECONF_CLASSES = ["utp", "tracker0", "dht", "ipv8", "own", "junk"]
+
+
+def reconf_trace(net, gen, rng, hops):
+    """Sequences the static scenarios cannot contain.
+    (1) before the socket is opened, validly signed messages made by the previous hop node arrive from its own address,
+        from its IP with another port and from a foreign IP (replays), each followed by data from the foreign IP and,
+        at the end, by data from the previous hop itself;
+    (2) the node is reconfigured while packets of every class wait - for a DNS answer (transports up or not yet up) and
+        for the transports - and between datagrams from outside: permissive -> the configuration under test ->
+        permissive -> the configuration under test."""
+    t = TraceRun(net, hops)
+    target = tuple(net.flagset)
+    own, junk = (lambda: gen.make("own")), (lambda: gen.make("junk"))
+    x4, y4, x6 = ("93.184.216.34", 80), ("10.1.2.3", 6881), ("2001:db8::1", 443)
+    marks = {}
+
+    def resolve(i):
+        # (an implementation that is stricter than the specification may have fewer resolutions in flight)
+        if len(t.net.outside.pending_dns()) >= i:
+            t.resolve(i)
+
+    def transport_ready():
+        if "tr" in t.enabled_kinds():
+            t.transport_ready()
+    # -- (1) who may open the socket
+    kinds = list(SIGNED_KINDS)
+    rng.shuffle(kinds)
+    t.signed("prev", kinds[0])
+    t.data("other", "v4", x4, own())
+    for i, kind in enumerate(kinds):
+        t.signed("other", kind)
+        t.data("other", "v4", x4, own())               # the replayer's own IP: still not the previous hop
+        marks.setdefault("other_after_replay", len(t.events))
+        t.data("other", "v6" if i else "dom4", x6 if i else ("v4.test", 80), gen.make(rng.choice(RECONF_CLASSES)))
+    t.signed("port", kinds[1])
+    t.data("other", "v4", y4, own())
+    t.signed("other", kinds[2])
+    # -- (2) reconfiguration; the socket is opened by the previous hop under the permissive configuration
+    t.set_flags(ALL_FLAGS)
+    marks["first_prev_data"] = len(t.events) + 1
+    waiting = {cls: gen.make(cls) for cls in RECONF_CLASSES}
+    for cls in RECONF_CLASSES:                             # all accepted now: wait for their names, transports not up
+        t.data("prev", "dom4", ("v4.test", 6969), waiting[cls])
+    for cls in ("utp", "ipv8", "own", "dht"):              # wait for the transports
+        t.data("prev", "v4", y4, gen.make(cls))
+    t.data("prev", "v6", x6, gen.make("tracker0"))
+    t.signed("other", kinds[0])                            # the socket is open: later replays change nothing either
+    resolve(1)                                           # same configuration, no transport: joins the queue
+    t.set_flags(target)
+    resolve(1)                                           # accepted under the old flags, queued under the new ones?
+    transport_ready()
+    resolve(1)                                           # IPv4 transport up, new configuration: leaves only if allowed
+    marks["stale_dns"] = len(t.events)
+    marks["stale_dns_emit"] = {"p": view_of(waiting["dht"]), "dk": "v4", "a": addr_rec(("93.184.216.34", 6969))}
+    transport_ready()                                      # the queue is flushed under the new configuration
+    marks["stale_queue"] = len(t.events)
+    while t.net.outside.pending_dns():
+        resolve(1)
+    for cls in ("utp", "ipv8", "junk", "own") if t.can_out("v4") else ():
+        t.outside_datagram("v4", gen.make(cls), y4)
+    t.set_flags(ALL_FLAGS)
+    for cls in RECONF_CLASSES:
+        t.data("prev", "dom4" if cls != "ipv8" else "dom6", ("v4.test", 80) if cls != "ipv8" else ("v6.test", 8080),
+               gen.make(cls))
+    for cls in ("utp", "ipv8", "junk", "own") if t.can_out("v4") else ():
+        t.outside_datagram("v4", gen.make(cls), y4)
+    resolve(2)                                           # no reconfiguration in between: leaves
+    marks["fresh_dns"] = len(t.events)
+    t.set_flags(target)
+    t.set_flags(target)
+    while t.net.outside.pending_dns():
+        t.resolve(len(t.net.outside.pending_dns()))
+    for cls in ("utp", "ipv8", "junk"):
+        if t.can_out("v4"):
+            t.outside_datagram("v4", gen.make(cls), x4)
+        t.data("prev", "v4", x4, gen.make(cls))
+    t.data("prev", "dom4", ("both.test", 80), gen.make("tracker0"))
+    t.set_flags(ALL_FLAGS)                                 # if it was forbidden when it arrived there is nothing to revive
+    resolve(1)
+    t.data("prev", "dom4", ("both.test", 80), gen.make("tracker0"))
+    t.close()
+    t.set_flags(target)
+    t.signed("other", kinds[1])
+    t.data("other", "v4", x4, own())
+    return t.finish(), marks
+
+
 def random_trace(net, gen, rng, hops, length):
     t = TraceRun(net, hops)
     burst = rng.random() < 0.2
     for _ in range(length):
         kinds = t.enabled_kinds()
-        weights = {"data": 6, "tr": 1 if burst else 3, "res": 3, "out": 4, "close": 0.25}
+        weights = {"data": 6, "tr": 1 if burst else 3, "res": 3, "out": 4, "close": 0.25, "flags": 1.2,
+                   "signed": 1.5 if t.state() == "disabled" else 0.3}
         k = rng.choices(kinds, [weights[x] for x in kinds])[0]
         if k == "data":
             dk = rng.choices(["v4", "v6", "dom4", "dom6", "domfail", "null"], [6, 4, 2, 2, 1, 2])[0]
@@ -774,6 +965,10 @@ def random_trace(net, gen, rng, hops, length):
             t.data(src, dk, dest, gen.make(cls))
         elif k == "tr":
             t.transport_ready()
+        elif k == "flags":
+            t.set_flags(rng.choice(FLAGSETS + [ALL_FLAGS, tuple(net.flagset)]))
+        elif k == "signed":
+            t.signed(rng.choices(["prev", "port", "other"], [1, 1, 3])[0], rng.choice(SIGNED_KINDS))
         elif k == "res":
             t.resolve(rng.randrange(1, len(t.net.outside.pending_dns()) + 1))
         elif k == "out":
@@ -807,7 +1002,8 @@ def write_cfg(tmp, name, spec, invariants, qcap):
     with open(path, "w", encoding="utf-8") as f:
         f.write("SPECIFICATION %s\nCONSTANTS QCap = %d MaxPend = 100000 MaxOps = 1000000\n"
                 "          NoInboundFilter = FALSE NoNullCheck = FALSE AnyoneOpens = FALSE RepIds = {}\n"
-                "          TrackHistory = TRUE FlowCache = \"none\" HostIps = {} HostPorts = {} SrcSet = {} DkSet = {}\n" % (spec, qcap))
+                "          TrackHistory = TRUE FlowCache = \"none\" HostIps = {} HostPorts = {} SrcSet = {} DkSet = {}\n"
+                "          StaleVerdict = \"none\" HopFollowsPeer = FALSE FlagChoices = {} SignedSrcs = {}\n" % (spec, qcap))
         for inv in invariants:
             f.write("INVARIANT %s\n" % inv)
     return path
@@ -866,13 +1062,15 @@ def describe_event(tr, l):
     if not isinstance(l, int) or not 1 <= l <= len(tr["events"]):
         return "?"
     e = tr["events"][l - 1]
-    return json.dumps({k: e[k] for k in ("k", "src", "dk", "fam", "st", "emit", "tun") if k in e})[:700]
+    keys = {"flags": ("k", "fl", "st"), "signed": ("k", "src", "kind", "st"), "res": ("k", "host", "wait", "st", "emit"),
+            "tr": ("k", "fam", "wait", "st", "emit")}.get(e["k"], ("k", "src", "dk", "fam", "st", "emit", "tun"))
+    return json.dumps({k: e[k] for k in keys if k in e})[:700]
 
 
 def corrupted(traces, marks):
     """Negative controls on the recorded material: [(name, corrupted trace)] - every one must be rejected by both
     validators."""
-    (tour_idx, m), (flow_idx, fm) = marks["tour"], marks["flows"]
+    (tour_idx, m), (flow_idx, fm), (rc_idx, rm) = marks["tour"], marks["flows"], marks["reconf"]
 
     def corrupt(idx, fn):
         t = json.loads(json.dumps(traces[idx]))
@@ -904,7 +1102,25 @@ def corrupted(traces, marks):
         # ... and the other way round: a forbidden packet towards an address accepted datagrams came from
         e = ev[fm["forbidden_to_heard"] - 1]
         e["emit"] = [{"p": e["p"], "dk": "v4", "a": e["a"]}]
-    return [("trace reporting a forbidden outside datagram as tunnelled is rejected", corrupt(tour_idx, c_inbound)),
+    def c_stale_dns(ev):
+        # the verdict taken before the name was resolved is kept although the node was reconfigured meanwhile
+        ev[rm["stale_dns"] - 1]["emit"] = [rm["stale_dns_emit"]]
+
+    def c_stale_queue(ev):
+        # the queue is written to the transports as it is although the node was reconfigured while it waited
+        ev[rm["stale_queue"] - 1]["emit"] = list(ev[rm["stale_queue"] - 2]["q"])
+
+    def c_replay_opens(ev):
+        # data from the IP a signed message of the previous hop's key was replayed from opens the socket
+        for e in ev[rm["other_after_replay"] - 1:rm["first_prev_data"] - 1]:
+            e["st"] = "enabling0"
+    return [("trace in which a packet that waited for DNS leaves under flags that forbid it is rejected",
+             corrupt(rc_idx, c_stale_dns)),
+            ("trace in which the waiting queue is emitted unfiltered after a reconfiguration is rejected",
+             corrupt(rc_idx, c_stale_queue)),
+            ("trace in which data from the address a signed message was replayed from opens the socket is rejected",
+             corrupt(rc_idx, c_replay_opens)),
+            ("trace reporting a forbidden outside datagram as tunnelled is rejected", corrupt(tour_idx, c_inbound)),
             ("trace reporting an emission towards 0.0.0.0:0 is rejected", corrupt(tour_idx, c_null)),
             ("trace in which a foreign source opens the socket is rejected", corrupt(tour_idx, c_open)),
             ("trace reporting a forbidden packet as emitted is rejected", corrupt(tour_idx, c_policy)),
@@ -943,6 +1159,10 @@ def trace_record(tier, rng):
                         tr, m = flows_trace(net, gen, hops, burst=24 if (tier != "quick" or k == burst_k) else 0)
                         marks.setdefault("flows", (len(traces), m))
                         traces.append(tr)
+                    for hops in ((1, 2) if tier != "quick" else (2 - k % 2,)):
+                        tr, m = reconf_trace(net, gen, rng, hops)
+                        marks.setdefault("reconf", (len(traces), m))
+                        traces.append(tr)
                     for i in range(n_random):
                         traces.append(random_trace(net, gen, rng, 1 + i % 2, rng.randrange(12, 45)))
                     received += net.received_by_origin
@@ -978,8 +1198,26 @@ def trace_judge(ctx, rec):
         ctx.note("trace_vacuity", {"emissions": n_emit, "tunnelled_back": n_tun, "sockets_opened": n_opened})
     kinds = {}
     history = {}
+    reconf = {}
     for t in traces:
+        before = "disabled"
+        reconfigured = False
         for e in t["events"]:
+            rk = None
+            reconfigured = reconfigured or e["k"] == "flags"
+            if e["k"] in ("res", "tr") and e.get("wait"):
+                rk = "%s, configuration %s while the packet(s) waited: %s" % (
+                    "name resolved" if e["k"] == "res" else "queue flushed",
+                    "changed" if e["wait"] == "reconf" else "unchanged", "passed" if e["emit"] else "nothing passed")
+            elif e["k"] == "data" and e.get("seen") and before == "disabled":
+                rk = "first data from %s after a signed message of the previous hop's key from %s: %s" % (
+                    e["src"], e["seen"], "opened" if e["st"] != "disabled" else "stayed disabled")
+            elif e["k"] == "out" and reconfigured:
+                rk = "datagram from outside in a reconfigured node: %s" % ("passed" if e["tun"] else "nothing passed")
+            if rk:
+                reconf[rk] = reconf.get(rk, 0) + 1
+                ctx.nontrivial(("reconf", tuple(t["flags"]), rk, tuple(e["p"]["h"][:2]), e.get("kind", "")))
+            before = e["st"]
             key = (e["k"], e["src"] if e["k"] == "data" else "", e["dk"] if e["k"] == "data" else e["fam"], e["st"],
                    bool(e["emit"]), bool(e["tun"]))
             kinds[key] = kinds.get(key, 0) + 1
@@ -1009,9 +1247,13 @@ def trace_judge(ctx, rec):
                     what = "inbound-from-known-address"
             if e.get("emit"):
                 what = "null-destination" if any(x["dk"] == "null" for x in e["emit"]) else "outbound"
+            if e["k"] in ("res", "tr") and e.get("wait") == "reconf" and e.get("emit"):
+                what = "stale-verdict-after-reconfiguration"
             if e["k"] == "data" and e["src"] == "other" and e["st"] != "disabled" and (
                     l_o == 1 or tr["events"][l_o - 2]["st"] == "disabled"):
                 what = "opened-by-foreign-source"
+                if e.get("seen") == "other":
+                    what = "opened-by-foreign-source-after-replayed-signed-message"
         ctx.violation("trace:%s" % what,
                       "the exit node's observed behaviour violates the exit policy property (%s): flags %s, event %s: %s"
                       "%s" % (what, tr and tr["flags"], l_o, tr and describe_event(tr, l_o),
@@ -1041,7 +1283,8 @@ def trace_judge(ctx, rec):
                         "sockets_opened": n_opened, "queue_capacity": qcap,
                         "distinct_event_situations": len(kinds), "exact_conformance": ok_e,
                         "model_divergence": divergence,
-                        "input_from_or_towards_addresses_with_a_history": dict(sorted(history.items()))})
+                        "input_from_or_towards_addresses_with_a_history": dict(sorted(history.items())),
+                        "reconfiguration_and_replayed_signed_messages": dict(sorted(reconf.items()))})
     if traces:
         ctx.sample({"recorded_events": traces[0]["events"][2:5], "flags": traces[0]["flags"]})
 
@@ -1055,6 +1298,14 @@ def trace_judge(ctx, rec):
                             "data towards sent ready: nothing passed", "data towards heard ready: nothing passed",
                             "datagram from sent ready: passed", "data towards heard ready: passed")
                 if not history.get(k)]
+        need += [k for k in ("name resolved, configuration changed while the packet(s) waited: nothing passed",
+                             "name resolved, configuration changed while the packet(s) waited: passed",
+                             "name resolved, configuration unchanged while the packet(s) waited: passed",
+                             "queue flushed, configuration changed while the packet(s) waited: passed",
+                             "first data from other after a signed message of the previous hop's key from other: "
+                             "stayed disabled",
+                             "first data from prev after a signed message of the previous hop's key from other: opened")
+                 if not reconf.get(k)]
         if need:
             raise MachineryError("trace binding is vacuous for the history part: never observed %s" % need)
         for i, (name, _) in enumerate(rec["controls"]):
@@ -1102,6 +1353,10 @@ def replay_file(ctx, path):
                 t.data(e["src"], e["dk"], tuple(e["dest"]), build(e["p"]))
             elif e["k"] == "tr":
                 t.transport_ready()
+            elif e["k"] == "flags":
+                t.set_flags(tuple(e["fl"]))
+            elif e["k"] == "signed":
+                t.signed(e["src"], e["kind"])
             elif e["k"] == "res":
                 t.resolve(e["i"])
             elif e["k"] == "out":
@@ -1134,7 +1389,10 @@ def run(tier, seed, replay=None):
                        "DataChecker.* and TunnelExitSocket.is_allowed under 8 flag sets; recorded executions of a real "
                        "exit node (1- and 2-hop circuits, recording outside transports) are validated by TLC, incl. "
                        "datagrams from / data towards outside addresses the socket sent allowed packets to, was asked "
-                       "to send to, resolved or accepted datagrams from (history model ExitPolicy_hist_*.cfg). "
+                       "to send to, resolved or accepted datagrams from (history model ExitPolicy_hist_*.cfg), "
+                       "run-time reconfiguration of the flags while packets wait for DNS / transports, and validly "
+                       "signed messages of the previous hop's key delivered from other addresses before the first "
+                       "data (model ExitPolicy_reconf_*.cfg). "
                        "non-trivial = enumerated packets falling in some class + distinct (flags, event kind, source, "
                        "destination kind, socket state, outcome, packet head) situations of the traces + distinct "
                        "(flags, direction, history of the address, socket state, packet head) situations")
@@ -1144,7 +1402,12 @@ def run(tier, seed, replay=None):
                         "0.0.0.0:0 of tunnelled data is the null address)",
                         "safety reading: dropping allowed traffic is never a violation",
                         "the filter on what comes back from outside is the stateless one of the statement: no outside "
-                        "address is exempt because of earlier traffic with it"]
+                        "address is exempt because of earlier traffic with it",
+                        "'the exit node's configured flags' are the flags configured at the moment a packet is handed "
+                        "to the outside transport / sent back into the tunnel (settings.peer_flags is writable at run "
+                        "time); a packet accepted earlier that is still waiting is judged again",
+                        "'the circuit's own previous hop' is the address the circuit was created from; it does not "
+                        "move when signed messages of that node's key show up from elsewhere"]
     rng = random.Random(seed)
     random.seed(seed)
     with ThreadPoolExecutor(max_workers=5) as ex:
@@ -1178,10 +1441,15 @@ def model_part_safe(tier):
         flows = ["in_after_out", "out_after_in"] if quick else ["in_after_out", "in_after_ask", "in_after_in",
                                                                  "out_after_out", "out_after_in"]
         ctl += [("ExitPolicy_ctl_flow_%s.cfg" % f, "EmitOnlyAllowed") for f in flows]
-        mods = ([("model", "ExitPolicy_quick.cfg"), ("model_history", "ExitPolicy_hist_quick.cfg")] if quick else
+        # a verdict taken when the packet arrived survives a reconfiguration; the opener check follows the address the
+        # previous hop's key was last seen at
+        ctl += [("ExitPolicy_ctl_stale_dns.cfg", "EmitOnlyAllowed"), ("ExitPolicy_ctl_stale_queue.cfg", "EmitOnlyAllowed"),
+                ("ExitPolicy_ctl_hopfollows.cfg", "OpenedOnlyByPrevHop")]
+        mods = ([("model", "ExitPolicy_quick.cfg"), ("model_history", "ExitPolicy_hist_quick.cfg"),
+                 ("model_reconf", "ExitPolicy_reconf_quick.cfg")] if quick else
                 [("model_all_classes", "ExitPolicy_thorough.cfg"), ("model_deep", "ExitPolicy_deep.cfg"),
-                 ("model_history", "ExitPolicy_hist_thorough.cfg")])
-        with ThreadPoolExecutor(max_workers=3) as ex:
+                 ("model_history", "ExitPolicy_hist_thorough.cfg"), ("model_reconf", "ExitPolicy_reconf_thorough.cfg")])
+        with ThreadPoolExecutor(max_workers=4 if quick else 3) as ex:     # (thorough models are memory hungry)
             fmods = [(tag, cfg, ex.submit(run_tlc, "ExitPolicy.tla", cfg, timeout=3000)) for tag, cfg in mods]
             fctl = [(cfg, inv, ex.submit(run_tlc, "ExitPolicy.tla", cfg, coverage=False, workers=2)) for cfg, inv in ctl]
             controls = [("spec with deviation %s violates %s" % (cfg[len("ExitPolicy_ctl_"):-4], inv),
@@ -1191,7 +1459,8 @@ def model_part_safe(tier):
                 r = f.result()
                 if not r.ok:
                     raise MachineryError("ExitPolicy %s: TLC reports %s on the specification itself" % (cfg, r.violated))
-                for act in ("DataFromTunnel", "TransportReady", "ResolveDone", "OutsideDatagram", "Close"):
+                acts = ("DataFromTunnel", "TransportReady", "ResolveDone", "OutsideDatagram", "Close")
+                for act in acts + (("SetFlags", "SignedMessage") if tag == "model_reconf" else ()):
                     if r.coverage.get(act, (0, 0))[1] == 0:
                         raise MachineryError("ExitPolicy.tla: action %s is never taken (vacuous model)" % act)
                 models.append((tag, r))
